@@ -427,6 +427,44 @@ def _sampler(limit=2):
     return take
 
 
+SIBLING_SHAPES = ['a, b=d', 'a=d', 'a, b=d, *args', 'a, b=d, **kw', 'a, *args, b=d', 'a, b=1, c=d']
+
+
+def make_siblings(sig, k=3):
+    """k functions made by ONE def inside a factory: the same code object, different default values and a different closure each"""
+    names = [x.strip().split('=')[0].lstrip('*') for x in sig.split(',')]
+    src = 'def factory(d, tag):\n    def f(%s):\n        return [tag, %s]\n    return f\n' % (sig, ', '.join(names))
+    ns = {}
+    exec(src, ns)
+    return [ns['factory']('D%d' % i, 'f%d' % i) for i in range(k)], src
+
+
+def check_siblings(c, wname, sig):
+    """functions sharing a code object are different functions: argument specification, binding and every wrapper follow the function at hand,
+    not the first sibling seen (anything remembered per code object / per source line is wrong for them)"""
+    from pyg_base import getcallargs, getargspec
+    fs, src = make_siblings(sig)
+    call = dict(kind='siblings', W=wname, sig=sig)
+    W = decorators()[wname] if wname != 'none' else (lambda f: f)
+    key = 'C18:siblings:%s' % wname
+    for i, f in enumerate(fs):
+        txt = 'sibling %d of `def f(%s)` made by one factory (d = "D%d")' % (i, sig, i)
+        try:
+            exp_spec = inspect.getfullargspec(f)
+            got = spec_of(f)
+            c.check(got == {k: getattr(exp_spec, k) for k in SPEC_FIELDS}, 'C18:siblings:getargspec', '%s: getargspec gives %r, inspect %r' % (txt, got, exp_spec), call)
+            exp = inspect.getcallargs(f, 'p')
+            got = getcallargs(f, 'p')
+            c.check(got == exp, 'C18:siblings:getcallargs', '%s: getcallargs(f, "p") = %r, inspect.getcallargs %r' % (txt, got, exp), call)
+            w = W(f)
+            c.check(w('p') == f('p'), key, '%s: %s(f)("p") = %r, f("p") = %r' % (txt, wname, w('p'), f('p')), call)
+            if wname != 'none':
+                ws = spec_of(w)
+                c.check(ws['args'] == list(exp_spec.args) and ws['defaults'] == exp_spec.defaults, key + ':argspec', '%s: %s(f) reports %r, f has %r' % (txt, wname, ws, exp_spec), call)
+        except Exception as e:      # noqa
+            c.check(False, key + ':raises', '%s raised %r' % (txt, e), call)
+
+
 def run(tier, seed):
     rng = random.Random(seed)
     quick = tier == 'quick'
@@ -441,10 +479,15 @@ def run(tier, seed):
                   'every argument position (positional, keyword, default-carrying, *args, **kw, inside tuple/list/dict). try_*: the fallback of try_none/zero/nan/true/false/list/back '
                   'on every call of a raising twin; every call history of length <= %d over {f succeeds, f raises, f raises and the caller mutates the returned value in place, '
                   'the same on a second function wrapped by the same decorator} for mutable fallbacks (try_list, value=[..], {..}, set) and {succeeds, raises} for immutable ones. '
-                  'A case is non-trivial when the call passes at least one argument; distinct by (shape, call, decorator)'
+                  'Sibling functions (three functions made by one def in a factory - one code object, different defaults and closures - over 6 signatures): getargspec, getcallargs and every wrapper '
+                  'follow the function at hand. A case is non-trivial when the call passes at least one argument; distinct by (shape, call, decorator)'
                   % (3 if quick else 4, 'those holding a twin pair' if quick else 'all', len(HASH_CALLS), 4 if quick else 5),
                   exhaustive=True, scope='60 signature shapes x all positional/keyword splits x 7 decorators; all stacks <= 3; all cache histories <= %d over 12 calls; hash-equal argument histories <= 2 (3 with a twin pair%s) over %d calls; try_* call histories <= %d' % (3 if quick else 4, '' if quick else ' or without', len(HASH_CALLS), 4 if quick else 5))
     take = _sampler(3)
+    for sig in SIBLING_SHAPES:
+        for w in ['none'] + wnames:
+            check_siblings(c, w, sig)
+            c.case(('siblings', w, sig), nontrivial=True, sample=take('siblings', dict(decorator=w, signature=sig), w == 'cache'))
     for shape in shapes():
         calls = list(valid_calls(*shape))
         n, nd, va, vk = shape
@@ -516,6 +559,8 @@ def replay(call):
         check_cache_history(c, call['seq'], call.get('universe') or 'main')
     elif kind == 'try_seq':
         check_try_sequence(c, call['W'], call['seq'])
+    elif kind == 'siblings':
+        check_siblings(c, call['W'], call['sig'])
     else:
         return dict(fails=None, detail='no replay for kind %r' % kind)
     v = list(c.violations.values())
